@@ -47,11 +47,10 @@ fn parse_value(t: &str) -> Option<Value> {
     }
     let r = t.strip_prefix("a:")?;
     if r.is_empty() {
-        return Some(Value::Array(vec![]));
+        return Some(Value::array(Vec::<String>::new()));
     }
-    Some(Value::Array(
-        r.split(',').map(dec_str).collect::<Option<Vec<_>>>()?,
-    ))
+    // `impl From<Vec<String>> for Value`
+    Some(r.split(',').map(dec_str).collect::<Option<Vec<String>>>()?.into())
 }
 
 fn parse_op(t: &str) -> Option<Op> {
@@ -290,7 +289,12 @@ impl Naive {
                 if var.read_only_location.is_some() {
                     return format!("ro({})", show_loc(&var.read_only_location));
                 }
+                // a fresh variable that receives an array is what `Variable::new_array` builds
+                let fresh = *var == Variable::default();
                 let old = var.value.replace(v.clone());
+                if let (true, Value::Array(vs)) = (fresh, v) {
+                    *var = if vs.is_empty() { Variable::new_empty_array() } else { Variable::new_array(vs.clone()) };
+                }
                 let old_loc = std::mem::replace(&mut var.last_assigned_location, l.map(loc));
                 format!("as({},{})", show_value(&old), show_loc(&old_loc))
             }
